@@ -275,10 +275,16 @@ package jsonschema
 //@   atline[C01] "if schema.Not != nil {" oneofok uses stacklen,oneinv,onedone: isold(schema) && isold(schema.OneOf) && (!isnil(schema.OneOf) ==> (exists j int :: 0 <= j && j < len(schema.OneOf) && vok(st, len(stk0) + 1, instance, schema.OneOf[j]) && (forall i int {schema.OneOf[i]} :: 0 <= i && i < len(schema.OneOf) && i != j ==> !vok(st, len(stk0) + 1, instance, schema.OneOf[i]))))
 //@   atline[C01] "if schema.If != nil {" notok uses stacklen: isold(schema) && (schema.Not != nil ==> !vok(st, len(stk0) + 1, instance, schema.Not))
 //@   atline[C01] "// arrays" ifok uses stacklen: isold(schema) && (schema.If != nil ==> (vok(st, len(stk0) + 1, instance, schema.If) ==> schema.Then == nil || vok(st, len(stk0) + 1, instance, schema.Then)) && (!vok(st, len(stk0) + 1, instance, schema.If) ==> schema.Else == nil || vok(st, len(stk0) + 1, instance, schema.Else)))
+//@   atline[C01] "validation-01#section-6.4" containsok uses stacklen,cnt,cntdone: isold(schema) && (schema.Contains != nil ==> nContains == vcount(st, len(stk0) + 1, instance, schema.Contains, rvlen(instance)) && (vcount(st, len(stk0) + 1, instance, schema.Contains, rvlen(instance)) > 0 || (schema.MinContains != nil && *schema.MinContains <= 0)))
+//@   atline[C01] "if schema.MinItems != nil {" mincontok uses stacklen,containsok: isold(schema) && (schema.Contains != nil ==> (schema.MinContains != nil ==> vcount(st, len(stk0) + 1, instance, schema.Contains, rvlen(instance)) >= *schema.MinContains) && (schema.MaxContains != nil ==> vcount(st, len(stk0) + 1, instance, schema.Contains, rvlen(instance)) <= *schema.MaxContains))
 //@   atline[C01] "// objects" cp5 uses samejv,shaped,p_items: okItems(schema, instance)
 //@   atline[C01,C07] "if len(schema.PatternProperties) > 0 {" propsok uses stacklen,propsinv: isold(schema) && isold(schema.Properties) && new(evalProps) && (forall k string {has(schema.Properties, k)} :: has(schema.Properties, k) && rvhas(instance, k) ==> vok(st, len(stk0) + 1, rvget(instance, k), schema.Properties[k]) && has(evalProps, k) && evalProps[k])
 //@   atline[C01,C07] "anns.noteProperties(evalProps)" addok uses stacklen,fal,addp: schema.AdditionalProperties != nil ==> new(evalProps) && (forall k string {rvhas(instance, k)} :: rvhas(instance, k) ==> has(evalProps, k) && evalProps[k])
 //@   atline[C01] "if st.rs.draft == draft7 {#3" reqok uses shaped: isold(schema) && isold(schema.Required) && okReq(schema, instance)
+//@   atline[C01] "if schema.DependentSchemas != nil {" depreqok uses stacklen,depreq: st.rs.draft == 1 ==> isold(schema) && isold(schema.DependentRequired) && (forall k string {has(schema.DependentRequired, k)} :: has(schema.DependentRequired, k) && rvhas(instance, k) ==> isold(schema.DependentRequired[k]) && (forall j int {schema.DependentRequired[k][j]} :: 0 <= j && j < len(schema.DependentRequired[k]) ==> rvhas(instance, schema.DependentRequired[k][j])))
+//@   atline[C01] "if schema.DependencySchemas != nil {" depreq7ok uses stacklen,depreq7: st.rs.draft == 0 ==> isold(schema) && isold(schema.DependencyStrings) && (forall k string {has(schema.DependencyStrings, k)} :: has(schema.DependencyStrings, k) && rvhas(instance, k) ==> isold(schema.DependencyStrings[k]) && (forall j int {schema.DependencyStrings[k][j]} :: 0 <= j && j < len(schema.DependencyStrings[k]) ==> rvhas(instance, schema.DependencyStrings[k][j])))
+//@   atline[C01] "if schema.UnevaluatedProperties != nil && !anns.allProperties {" depschok uses stacklen,depsch: st.rs.draft == 1 ==> isold(schema) && isold(schema.DependentSchemas) && (forall k string {has(schema.DependentSchemas, k)} :: has(schema.DependentSchemas, k) && rvhas(instance, k) ==> vok(st, len(stk0) + 1, instance, schema.DependentSchemas[k]))
+//@   atline[C01] "if schema.UnevaluatedProperties != nil && !anns.allProperties {" depsch7ok uses stacklen,depsch7: st.rs.draft == 0 ==> isold(schema) && isold(schema.DependencySchemas) && (forall k string {has(schema.DependencySchemas, k)} :: has(schema.DependencySchemas, k) && rvhas(instance, k) ==> vok(st, len(stk0) + 1, instance, schema.DependencySchemas[k]))
 //@   atline[C01] "if callerAnns != nil {" cp6 uses samejv,shaped,p_props,p_req: okProps(schema, instance) && isold(schema) && isold(schema.Required) && okReq(schema, instance)
 //@   atreturn[C01,C12] accepted uses samejv: result == nil && applies ==> jv(instance) == jv(inst0) && okType(schema, instance) && okConst(schema, instance) && okNum(schema, instance) && okStr(schema, instance) && okItems(schema, instance) && okProps(schema, instance) && okReq(schema, instance)
 //@   reject[C01] "type:" (schema.Type != "" && !tmatch(schema.Type, typeName(jv(instance)))) || (schema.Type == "" && !isnil(schema.Types) && (forall i int {schema.Types[i]} :: 0 <= i && i < len(schema.Types) ==> !tmatch(schema.Types[i], typeName(jv(instance)))))
@@ -296,6 +302,11 @@ package jsonschema
 //@   reject[C01] "oneOf: validated against both" isold(schema) && isold(schema.OneOf) && (exists j int, i int :: 0 <= j && j < i && i < len(schema.OneOf) && vok(st, len(stk0) + 1, instance, schema.OneOf[j]) && vok(st, len(stk0) + 1, instance, schema.OneOf[i]))
 //@   reject[C01] "oneOf: did not" isold(schema) && isold(schema.OneOf) && (forall j int {schema.OneOf[j]} :: 0 <= j && j < len(schema.OneOf) ==> !vok(st, len(stk0) + 1, instance, schema.OneOf[j]))
 //@   reject[C01] "not:" schema.Not != nil && vok(st, len(stk0) + 1, instance, schema.Not)
+//@   reject[C01] "contains:" schema.Contains != nil && vcount(st, len(stk0) + 1, instance, schema.Contains, rvlen(instance)) == 0 && (schema.MinContains == nil || *schema.MinContains > 0)
+//@   reject[C01] "minContains:" schema.Contains != nil && schema.MinContains != nil && vcount(st, len(stk0) + 1, instance, schema.Contains, rvlen(instance)) < *schema.MinContains
+//@   reject[C01] "maxContains:" schema.Contains != nil && schema.MaxContains != nil && vcount(st, len(stk0) + 1, instance, schema.Contains, rvlen(instance)) > *schema.MaxContains
+//@   reject[C01] "required:" isold(schema) && isold(schema.Required) && (exists j int :: 0 <= j && j < len(schema.Required) && !rvhas(instance, schema.Required[j]))
+//@   reject[C01] "dependentRequired[" isold(schema) && rvhas(instance, dprop) && (st.rs.draft == 1 ==> isold(schema.DependentRequired) && has(schema.DependentRequired, dprop) && (exists j int :: 0 <= j && j < len(schema.DependentRequired[dprop]) && !rvhas(instance, schema.DependentRequired[dprop][j]))) && (st.rs.draft == 0 ==> isold(schema.DependencyStrings) && has(schema.DependencyStrings, dprop) && (exists j int :: 0 <= j && j < len(schema.DependencyStrings[dprop]) && !rvhas(instance, schema.DependencyStrings[dprop][j])))
 //@   reject[C12] "enum:" isold(schema) && isold(schema.Enum) && (forall j int {schema.Enum[j]} :: 0 <= j && j < len(schema.Enum) ==> !eqv(rvof(schema.Enum[j]), instance))
 //@   reject[C12] "const:" schema.Const != nil && !eqv(rvof(*schema.Const), instance)
 //@   reject[C12] "uniqueItems:" exists i int, j int :: 0 <= j && j < i && i < rvlen(instance) && eqv(rvindex(instance, i), rvindex(instance, j))
@@ -346,9 +357,19 @@ package jsonschema
 //@   loop "for i < instance.Len()#2"
 //@     invariant[C01,C02,C07] items7 uses stacklen: 0 <= i && (forall j int {rvindex(instance, j)} :: 0 <= j && j < i ==> vok(st, len(stk0) + 1, rvindex(instance, j), schema.Items))
 //@     exit[C01,C02,C07] items7done uses stacklen,items7: i >= rvlen(instance) ==> (forall j int {rvindex(instance, j)} :: 0 <= j && j < rvlen(instance) ==> vok(st, len(stk0) + 1, rvindex(instance, j), schema.Items))
+//@   loop "range schema.DependentRequired"
+//@     invariant[C01] depreq uses stacklen,reqinv: isold(schema) && isold(schema.DependentRequired) && (forall k string {select(visited, k)} :: select(visited, k) && rvhas(instance, k) ==> isold(schema.DependentRequired[k]) && (forall j int {schema.DependentRequired[k][j]} :: 0 <= j && j < len(schema.DependentRequired[k]) ==> rvhas(instance, schema.DependentRequired[k][j])))
+//@   loop "range schema.DependencyStrings"
+//@     invariant[C01] depreq7 uses stacklen,reqinv: isold(schema) && isold(schema.DependencyStrings) && (forall k string {select(visited, k)} :: select(visited, k) && rvhas(instance, k) ==> isold(schema.DependencyStrings[k]) && (forall j int {schema.DependencyStrings[k][j]} :: 0 <= j && j < len(schema.DependencyStrings[k]) ==> rvhas(instance, schema.DependencyStrings[k][j])))
+//@   loop "range schema.DependentSchemas"
+//@     invariant[C01] depsch uses stacklen: isold(schema) && isold(schema.DependentSchemas) && (forall k string {select(visited, k)} :: select(visited, k) && rvhas(instance, k) ==> vok(st, len(stk0) + 1, instance, schema.DependentSchemas[k]))
+//@   loop "range schema.DependencySchemas"
+//@     invariant[C01] depsch7 uses stacklen: isold(schema) && isold(schema.DependencySchemas) && (forall k string {select(visited, k)} :: select(visited, k) && rvhas(instance, k) ==> vok(st, len(stk0) + 1, instance, schema.DependencySchemas[k]))
 //@   loop "range props"
-//@     invariant[C01] reqinv: forall j int {props[j]} :: 0 <= j && j <= $idx ==> rvhas(instance, props[j]) || len(missing) > 0
-//@     exit[C01] reqdone uses reqinv: forall j int {props[j]} :: 0 <= j && j < len(props) ==> rvhas(instance, props[j]) || len(missing) > 0
+//@     invariant[C01] reqinv: isold(props) && (forall j int {props[j]} :: 0 <= j && j <= $idx ==> rvhas(instance, props[j]) || len(missing) > 0)
+//@     exit[C01] reqdone uses reqinv: isold(props) && (forall j int {props[j]} :: 0 <= j && j < len(props) ==> rvhas(instance, props[j]) || len(missing) > 0)
+//@     invariant[C01] reqmiss: isold(props) && newOrNil(missing) && $idx < len(props) && (len(missing) > 0 ==> (exists j int :: 0 <= j && j <= $idx && !rvhas(instance, props[j])))
+//@     exit[C01] reqmissdone uses reqmiss: isold(props) && newOrNil(missing) && (len(missing) > 0 ==> (exists j int :: 0 <= j && j < len(props) && !rvhas(instance, props[j])))
 //@   loop "range properties(instance)#2"
 //@     invariant[C01,C07] fal: new(evalProps) && (forall k string {select(visited, k)} :: select(visited, k) ==> (has(evalProps, k) && evalProps[k]) || len(disallowed) > 0)
 //@   loop "range properties(instance)#3"
@@ -356,6 +377,8 @@ package jsonschema
 //@   loop "range schema.Properties"
 //@     invariant[C01,C07] propsinv uses stacklen: isold(schema) && isold(schema.Properties) && new(evalProps) && (forall k string {select(visited, k)} :: select(visited, k) && rvhas(instance, k) ==> vok(st, len(stk0) + 1, rvget(instance, k), schema.Properties[k]) && has(evalProps, k) && evalProps[k])
 //@   loop "range instance.Len()"
+//@     invariant[C01] cnt uses stacklen: isold(schema) && 0 <= $i && nContains == vcount(st, len(stk0) + 1, instance, schema.Contains, $i)
+//@     exit[C01] cntdone uses stacklen,cnt: isold(schema) && nContains == vcount(st, len(stk0) + 1, instance, schema.Contains, rvlen(instance))
 //@     invariant[C07] cont uses stacklen,anns: isold(schema) && new(anns) && newOrNil(anns.evaluatedIndexes) && (forall j int {rvindex(instance, j)} :: 0 <= j && j < $i && vok(st, len(stk0) + 1, rvindex(instance, j), schema.Contains) ==> anns.evaluatedIndexes != nil && has(anns.evaluatedIndexes, j) && anns.evaluatedIndexes[j])
 //@     exit[C07] contdone uses stacklen,anns,cont: isold(schema) && new(anns) && newOrNil(anns.evaluatedIndexes) && (forall j int {rvindex(instance, j)} :: 0 <= j && j < rvlen(instance) && vok(st, len(stk0) + 1, rvindex(instance, j), schema.Contains) ==> anns.evaluatedIndexes != nil && has(anns.evaluatedIndexes, j) && anns.evaluatedIndexes[j])
 //@   loop "range schema.AllOf"
